@@ -108,11 +108,12 @@ class Repo:
             raise vlib.ToolError("git ls-files failed: " + p.stderr.decode("utf8", "replace"))
         return sorted(x for x in p.stdout.decode("utf8").split("\0") if x)
 
-    def rg_visible(self, rg, ci, walker):
-        cmd = [rg] + RG_BASE + (["--ignore-file-case-insensitive"] if ci else []) + WALKERS[walker]
+    def rg_visible(self, rg, ci, walker, cwd="", parent=False, paths=()):
+        base = [x for x in RG_BASE if not (parent and x == "--no-ignore-parent")]
+        cmd = [rg] + base + (["--ignore-file-case-insensitive"] if ci else []) + WALKERS[walker] + list(paths)
         try:
-            p = subprocess.run(cmd, cwd=self.dir, env=self.env, stdout=subprocess.PIPE, stderr=subprocess.PIPE,
-                               timeout=60)
+            p = subprocess.run(cmd, cwd=os.path.join(self.dir, cwd) if cwd else self.dir, env=self.env,
+                               stdout=subprocess.PIPE, stderr=subprocess.PIPE, timeout=60)
         except subprocess.TimeoutExpired:
             return {"files": [], "rc": "timeout", "stderr": "", "cmd": cmd[1:]}
         out = [x for x in p.stdout.decode("utf8", "replace").split("\n") if x]
@@ -138,12 +139,44 @@ class Pool:
         shutil.rmtree(self.base, ignore_errors=True)
 
 
-def observe(pool, rg, scn, want_git=True, walkers=("parallel", "serial")):
+def subroots(scn, visible):
+    """Directories of the tree with a visible file beneath them (hence not ignored themselves): candidates for a
+    search that STARTS below the ignore files, which then act as parent-directory ignore files."""
+    dirs = set()
+    for p in visible:
+        parts = p.split("/")
+        for k in range(1, len(parts)):
+            dirs.add("/".join(parts[:k]))
+    return sorted(dirs)
+
+
+def expected_below(visible, roots):
+    return sorted(p for p in visible if any(p.startswith(d + "/") for d in roots))
+
+
+def observe(pool, rg, scn, want_git=True, walkers=("parallel", "serial"), visible=None):
     r = pool.repo()
     r.materialise(scn)
     res = {"git": r.git_visible(scn["ci"]) if want_git else None}
     for w in walkers:
         res[w] = r.rg_visible(rg, scn["ci"], w)
+    res["below"] = []
+    if visible is not None:
+        ds = subroots(scn, visible)
+        # (a) the search starts in a sub-directory: cwd = that directory, no path argument
+        pick = sorted(set([d for d in ds if d == scn.get("sub")] + ds[:1] + ds[-1:]))
+        for k, d in enumerate(pick):
+            w = "serial" if k % 2 == 0 else "parallel"
+            ob = r.rg_visible(rg, scn["ci"], w, cwd=d, parent=True)
+            res["below"].append({"roots": [d], "cwd": d, "walker": w, "ob": ob,
+                                 "expected": [p[len(d) + 1:] for p in expected_below(visible, [d])]})
+        # (b) several roots named on the command line, the ignore files of the cwd are parents of each of them
+        top = [d for d in ds if "/" not in d]
+        if len(top) >= 2:
+            roots = [top[0], top[-1]]
+            for w in ("serial", "parallel"):
+                ob = r.rg_visible(rg, scn["ci"], w, parent=True, paths=["--"] + roots)
+                res["below"].append({"roots": roots, "cwd": "", "walker": w, "ob": ob, "expected": expected_below(visible, roots)})
     return res
 
 
@@ -241,7 +274,7 @@ def explore(chk, cfgname, rg, timeout):
             chunks = [order[k::NWORKERS] for k in range(NWORKERS)]
 
             def work(idx):
-                return [(i, observe(pool, rg, recs[i]["scn"])) for i in idx]
+                return [(i, observe(pool, rg, recs[i]["scn"], visible=recs[i]["visible"])) for i in idx]
             obs = {}
             for part in ex.map(work, chunks):
                 for i, o in part:
@@ -284,6 +317,25 @@ def explore(chk, cfgname, rg, timeout):
                         {"finding": what[:60] + "...", "scenario": describe(scn), "why": why, "walker": w})
                 continue
             chk.violation(sig, record)
+        # searches that start below the ignore files (the files are then parent-directory ignore files)
+        for b in o["below"]:
+            chk.evaluations += 1
+            ob = b["ob"]
+            if ob["rc"] != "timeout" and ob["files"] == sorted(b["expected"]):
+                chk.validated += 1
+                cat("started_below_the_ignore_file" if b["cwd"] else "several_roots_below_the_ignore_file")
+                continue
+            diff = sorted(set(ob["files"]) ^ set(b["expected"]))
+            listed = [p for p in diff if p in ob["files"]]
+            hidden = [p for p in diff if p not in ob["files"]]
+            rel = [p[len(b["cwd"]) + 1:] if False else p for p in diff]
+            depth = max([len((p if b["cwd"] else p.split("/", 1)[-1]).split("/")) for p in rel] or [0])
+            sig = dict(make_sig(rec, [((b["cwd"] + "/") if b["cwd"] else "") + p for p in diff], b["walker"], listed, hidden),
+                       start="subdirectory" if b["cwd"] else "several_roots", depth_below_root=min(depth, 3))
+            chk.violation(sig, {"why": "search started below the ignore files (%s): rg lists %s which git ignores; rg skips %s which git does not ignore"
+                                       % ("cwd=" + b["cwd"] if b["cwd"] else "roots " + " ".join(b["roots"]), listed, hidden),
+                                "scenario": scn, "cwd": b["cwd"], "roots": b["roots"], "expected_visible": b["expected"], "observed": ob,
+                                "walker": b["walker"], "driver": "c04.py"})
         # coverage accounting
         cat("repositories")
         if ignored:
